@@ -3,6 +3,7 @@ import PhyModel.Proofs.PropSumOne
 import PhyModel.Proofs.PropSampler
 import PhyModel.Proofs.PropWeights
 import PhyModel.Proofs.PropKeys
+import PhyModel.Proofs.PropParent3
 /-! # C08 — SMC proposals are normalised, faithfully sampled, complete, correctly weighted
 
 `Proposal.table` mirrors `log_p()` of the three proposal distributions (bootstrap, semi-adapted,
@@ -103,6 +104,35 @@ example :
       [(T.mk' (.cons [0] .nil .nil) [], 9/10), (T.mk' (.cons [0] .nil .nil) [1], 1/10),
        (T.mk' (.cons [2] (.cons [0] .nil .nil) .nil) [1], 1/4)]
     steps ≠ [] ∧ (∀ tq ∈ steps, tq.2 ≠ 0) ∧ (∀ tq ∈ steps, pMargT exData (exC .bootstrap) tq.1 ≠ 0) := by
+  decide +kernel
+
+/-- **the parent is determined by the child**: removing the fresh data point `i` from any placement
+(`SMC.restrictF` with everything but `i` kept, as in `SMC.restrict`) gives back the parent state in
+canonical form -/
+theorem recover_placement (p : T) (i : ℕ) (wf : WFParent p i) (kt : Kind × T)
+    (hkt : kt ∈ placements p i) : recover i kt.2 = T.mk' p.f p.out :=
+  recover_placement_proof p i wf kt hkt
+
+/-- **unique parent**: two (canonical, well-formed) parent states never produce the same child -/
+theorem unique_parent (p p' : T) (i : ℕ) (wf : WFParent p i) (wf' : WFParent p' i)
+    (hc : T.mk' p.f p.out = p) (hc' : T.mk' p'.f p'.out = p')
+    (kt kt' : Kind × T) (hkt : kt ∈ placements p i) (hkt' : kt' ∈ placements p' i)
+    (h : kt.2 = kt'.2) : p = p' := by
+  rw [← hc, ← hc']
+  exact unique_parent_proof p p' i wf wf' kt kt' hkt hkt' h
+
+/-- `WFParent` follows from the usual tree invariants -/
+theorem wfParent_of_nodup (p : T) (i : ℕ) (hnd : p.f.all.Nodup) (hne : AllNonempty p.f)
+    (hbig : ∀ a ∈ p.f.all, a < Orders.Forest.big) (hf : i ∉ p.f.all) (ho : i ∉ p.out) :
+    WFParent p i :=
+  PhyModel.wfParent_of_nodup p i hnd hne hbig hf ho
+
+/-- non-vacuity: a parent with a chain, a second top-level clone and an outlier is well formed for the
+fresh data point 4 and is canonical -/
+example :
+    let p : T := T.mk' (.cons [3] (.cons [0] .nil .nil) (.cons [1] .nil .nil)) [2]
+    p.f.all.Nodup ∧ AllNonempty p.f ∧ (∀ a ∈ p.f.all, a < Orders.Forest.big) ∧ 4 ∉ p.f.all ∧ 4 ∉ p.out ∧
+      T.mk' p.f p.out = p ∧ (placements p 4).length = 7 := by
   decide +kernel
 
 end PhyModel.Props.C08
